@@ -55,3 +55,14 @@ func TestRaceFamilies(t *testing.T) {
 		})
 	}
 }
+
+// The lazy DFA asks its shared d.pikevm whether an empty match exists at the end of the haystack
+// (matchesEmptyAt, added by fix 6e116d7 next to matchesEmpty, which does the same for the empty haystack).
+// FindAll resumes at len(haystack) behind a match that ends there.
+func TestRaceLazyDFAAtEnd(t *testing.T) {
+	for _, pat := range []string{`[a-c]+\d{2,}z|q+w`, `\d+[a-z]+\d+`, `[ab]+c[de]+f\d`, `[a-z]+\d+[a-z]+\d`} {
+		hammer(t, pat, []string{"x abc12z", "qqw", "12ab34", "bcef2", "ab1cd2"}, func(re *coregex.Regex, s string) {
+			re.FindAllStringIndex(s, -1)
+		})
+	}
+}
